@@ -18,6 +18,10 @@ HERE = os.path.join(VERIF, "clisim")
 PROP = "C14"
 ENV = {"UBSAN_OPTIONS": "exitcode=78:print_stacktrace=0:halt_on_error=1"}
 RUN = os.path.join(build.BUILD, "run")
+TWIN = None
+# heap garbage differs between the twins as well (ASan fills fresh allocations)
+ENV_A = dict(ENV, ASAN_OPTIONS="malloc_fill_byte=190:max_malloc_fill_size=65536")
+ENV_Z = dict(ENV, ASAN_OPTIONS="malloc_fill_byte=0:max_malloc_fill_size=65536")
 
 
 def corpus_manifest():
@@ -60,6 +64,12 @@ def build_engines(want_plain=False):
             (os.path.join(HERE, "shim.cpp"), hflags, "")]
     eo, m1, m2, sh = build.compile_many(jobs)
     l1 = build.link([eo, m1] + objs, os.path.join(build.BUILD, "bin", "clisim"), ["-fsanitize=address,undefined"])
+    # twin of L1: uninitialised automatic variables are zero instead of a garbage pattern
+    zobjs = build.lib_objects("asanz")
+    zflags = build.VARIANTS["asanz"] + build.INCLUDES
+    (mz,) = build.compile_many([(main_src, zflags + ["-include", os.path.join(HERE, "prelude.h")], "l1z")])
+    global TWIN
+    TWIN = build.link([eo, mz] + zobjs, os.path.join(build.BUILD, "bin", "clisim_z"), ["-fsanitize=address,undefined"])
     l2 = build.link([sh, m2] + objs, os.path.join(build.BUILD, "bin", "gm2calc_l2"), ["-fsanitize=address,undefined", "-ldl"])
     pl = None
     if want_plain:
@@ -198,7 +208,11 @@ def main(a):
     try:
         if a.replay:
             rep = json.load(open(a.replay))
-            if rep.get("engine") == "clisim-l2":
+            if rep.get("engine") == "clisim-twin":
+                x = orch.exec_plan(l1, rep["ops"], ENV_A, args=wargs)
+                y = orch.exec_plan(TWIN, rep["ops"], ENV_Z, args=wargs)
+                got = "uninitialised_read" if x["hash"] != y["hash"] else "OK"
+            elif rep.get("engine") == "clisim-l2":
                 r = L2Runner(l1, l2, manifest, "rp")
                 try:
                     got = l2_sig(r.run(rep["ops"]))
@@ -266,6 +280,24 @@ def main(a):
         if sorted((c["run"], c["sig"]) for c in g["candidates"]) != sorted((c["run"], c["sig"]) for c in rnd["candidates"] if c["run"] < ngate):
             harness_errors.append("candidate set differs between two executions of the first %d random runs" % ngate)
 
+        # ---- uninitialised-memory twins: the same runs in a build whose uninitialised stack and heap
+        # contents are zero instead of a pattern; any difference in (status, stdout, stderr) is a read of
+        # uninitialised memory
+        t1 = time.time()
+        twin = {"runs": 0, "differences": 0}
+        twin_cands = []
+        nlight = 4000 if not thorough else 100000
+        for kind, seed, count in (("CORPUS", 0, counts.get("CORPUS", 0)), ("LIGHT", a.seed, nlight), ("TOKENQ", 0, counts.get("TOKENQ", 0))):
+            ra = orch.run_batch(l1, kind, seed, 0, count, nw, ENV_A, chunk=400, args=wargs, init_cmds=("HASHALL 1",))
+            rz = orch.run_batch(TWIN, kind, seed, 0, count, nw, ENV_Z, chunk=400, args=wargs, init_cmds=("HASHALL 1",))
+            for r, h in ra["hashes"].items():
+                if r in rz["hashes"]:
+                    twin["runs"] += 1
+                    if rz["hashes"][r] != h:
+                        twin["differences"] += 1
+                        twin_cands.append({"run": r, "kind": kind, "seed": seed})
+        t_twin = time.time() - t1
+
         kinds = {"corpus": "CORPUS", "prefix": pk, "token": tk, "random": "RUNS", "light": "LIGHT"}
         cands = []
         for name, part in parts.items():
@@ -277,6 +309,26 @@ def main(a):
 
         viol, known_hits, herr = orch.process_candidates(PROP, "clisim", l1, cands, get_plan, ENV, args=wargs)
         harness_errors += herr
+        for c in twin_cands[:3]:
+            plan = get_plan(c)
+
+            def differs(ops):
+                x = orch.exec_plan(l1, ops, ENV_A, args=wargs)
+                y = orch.exec_plan(TWIN, ops, ENV_Z, args=wargs)
+                return x["hash"] != y["hash"] and x["hash"] != "dead" and y["hash"] != "dead"
+            if not (differs(plan) and differs(plan)):
+                harness_errors.append("twin difference of %s run %d did not reproduce" % (c["kind"], c["run"]))
+                continue
+            small, ncalls = orch.ddmin(plan, differs, budget=120)
+            rdir = os.path.join(orch.OUT, "replays", PROP)
+            os.makedirs(rdir, exist_ok=True)
+            path = os.path.join(rdir, "uninitialised_read-%s-run%d.json" % (c["kind"], c["run"]))
+            x = orch.exec_plan(l1, small, ENV_A, args=wargs)
+            y = orch.exec_plan(TWIN, small, ENV_Z, args=wargs)
+            json.dump({"property": PROP, "engine": "clisim-twin", "signature": "uninitialised_read", "run_index": c["run"], "kind": c["kind"], "seed": c["seed"], "ops": small,
+                       "original_length": len(plan), "trace": ["pattern build: " + " ; ".join(x["trace"]), "zero build: " + " ; ".join(y["trace"])]}, open(path, "w"), indent=1)
+            viol.append({"sig": "uninitialised_read", "path": path, "ops": len(small), "from_ops": len(plan), "count": twin["differences"]})
+            break
 
         # ---- layer L2: the real executable as a process, same plans
         t1 = time.time()
@@ -415,6 +467,7 @@ def main(a):
                 "exit_status_histogram": {k[7:]: v for k, v in counters.items() if k.startswith("status_")},
                 "layer_L2": dict(l2stats, what="real executable (ASan+UBSan+LSan) as a process with read()/write() shim: short reads, EINTR, EIO, ENOSPC", wall_s=round(t_l2, 1)),
                 "valgrind_sample": vg,
+                "uninitialised_memory_twins": dict(twin, what="runs (intact corpus, LIGHT plans, token replacements on input/example.*) executed in two builds whose uninitialised stack (-ftrivial-auto-var-init=pattern|zero) and fresh heap (ASan malloc_fill_byte) contents differ; outputs compared", wall_s=round(t_twin, 1)),
                 "determinism_gate": {"runs_compared": compared, "hash_mismatches": len(mism)},
                 "worker_deaths": sum(p["deaths"] for p in parts.values()),
                 "real_vs_stub": {"real": ["src/gm2calc.cpp main() and all of libgm2calc from the working tree (ASan+UBSan)", "libstdc++ string/stream formatting", "L2: the whole process incl. libstdc++ filebuf, exit(), LeakSanitizer"],
